@@ -194,7 +194,7 @@ class IncIndirect(Poke):
                 data[dstField] = destination[dstField] + source[srcField]
             destination.update(data) #update so time stamp updated, use dict
         except TypeError as ex:
-            console.terse("Error in Inc: {0}\n".format(ex1))
+            console.terse("Error in Inc: {0}\n".format(ex))
         else:
             console.profuse("Inc {0} in {1} from {2} in {3} to {4}\n".format(
                 destinationFields, destination.name, sourceFields, source.name, data.values))
